@@ -12,6 +12,8 @@ def rx_scenario(rng, tier, big=False):
     params['blocksize'] = rng.choice([0, 1, 2, 3, 8, 16, 255, rng.randrange(256)])
     mfs = rng.choice([4095, 4095, 4095, 100, 20, 100000])
     params['max_frame_size'] = mfs
+    if rng.random() < 0.2:
+        params['default_target_address_type'] = 1       # Flow Control is physically addressed whatever send() defaults to
     ops = [{'op': 'layer', 'i': 0, 'addr': a, 'params': params}]
     rxh = ref.half(a, 'rx')
     pre = b''
